@@ -7,8 +7,9 @@
                              with relative tolerance `tol`: not a `EnclPf.PowViolation`, the infinity of sign `neg`
                              when `T > 10^17000`, the zero of sign `neg` when `T < 10^-17000`
                              (these are exactly the three ways `EnclPf.PowBad` can hold on the general path)
-  * `InBand x`             : `1.092 < x < 1.1`, the only bases where the logarithm of the library is less accurate
-                             than half the tolerance of the property (truncation of the artanh series)
+  * `InBand x`             : `1.092 < x < 1.1`: the bases where, BEFORE /repo commit 04f6227 (artanh series of `log` to
+                             the 33rd instead of the 25th power), the logarithm was less accurate than half the tolerance of
+                             the property; kept for the record, no theorem needs it any more
   * `signed neg T`         : `±T`
 -/
 import D128.Proofs.EnclosurePow
@@ -30,7 +31,7 @@ def PowGood (neg : Bool) (tol : ℝ) (T : ℝ) (v : Val) : Prop :=
   ((10 : ℝ) ^ (17000 : ℕ) < T → v.same (.inf neg) = true) ∧
   (T < 1 / (10 : ℝ) ^ (17000 : ℕ) → (v.isZero && v.neg == neg) = true)
 
-/-- the band of bases where the claim of property C18 fails -/
+/-- the band of bases where the claim of property C18 failed before /repo commit 04f6227 -/
 def InBand (x : ℝ) : Prop := 1092 / 1000 < x ∧ x < 11 / 10
 
 end PowAcc
